@@ -154,6 +154,7 @@ def jump_cases(rng, out, ncfg, njump):
         cfg = dict(td_n=rng.choice([2, 3, 4, 5]), td_family=rng.choice(['normal', 'adaptive_normal', 'ss_adaptive_normal', 'at_adaptive_normal']),
                    birth=rng.choice(['uniform', 'normal', 'lognormal']), successive=rng.random() < 0.4, T=10,
                    kcov=rng.choice([1.0, 4.0, 9.0]))
+        cfg['td_k'] = 1 if _ % 3 else rng.choice([2, 3])         # slow in-model proposals, met at every phase of their clock
         td = C.td_proposal(cfg)
         td.model_proposal.cov = numpy.array([cfg['kcov']]) if hasattr(td.model_proposal, 'cov') else None
         try:
@@ -167,6 +168,9 @@ def jump_cases(rng, out, ncfg, njump):
         with JumpTap(td) as tap:
             for _ in range(njump):
                 pos, act, _ = gen_state(rng, n, False)
+                if cfg['td_k'] > 1:
+                    for pr in td.proposals:
+                        pr._nsteps = rng.randrange(0, 3 * cfg['td_k'])
                 fromx = dict(pos)
                 fromx['_state'] = numpy.array(act)
                 try:
